@@ -616,13 +616,38 @@ class Fn:
                         res["false"] = (b, other)
         return res
 
+    def discr_switches(self, adt_suffix):
+        """Switches on the discriminant of an ADT whose path ends with adt_suffix:
+        [(switch_bb, {variant_name: target}, otherwise_bb, discr_stmt)]."""
+        out = []
+        for s in self.stmts():
+            if s.rv_kind() == "discr" and s.rv[2] and path_match(strip_generics(s.rv[2]), adt_suffix):
+                names = variant_names(s.rv[2])
+                for b in range(self.nblocks):
+                    sw = self.switch_on(b)
+                    if sw and sw[0].place is not None and sw[0].place.local == s.place.local and not sw[0].place.proj:
+                        arms = {}
+                        for v, t in sw[1].items():
+                            arms[names.get(v, str(v))] = t
+                        out.append((b, arms, sw[2], s))
+        return out
+
+    def dominated_region(self, bb):
+        return {b for b in self.reachable(bb) if self.dominates(bb, b)}
+
+    def calls_in(self, region):
+        return [c for c in self.calls if c.bb in region]
+
+    def stmts_in(self, region):
+        return [s for s in self.stmts() if s.bb in region]
+
     def cmp_switches(self):
         """Comparisons whose boolean result is branched on:
         dicts {op, a, b, stmt, bb (switch block), t (true target), f (false target), eq, ne}."""
         out = []
         for s in self.stmts():
             if s.rv_kind() == "bin" and s.rv[1] in ("Eq", "Ne", "Lt", "Le", "Gt", "Ge") and s.place is not None and not s.place.proj:
-                al = self.forward_aliases(s.place.local, through_calls=("ops::Not::not",)) if False else {s.place.local}
+                al = self.forward_aliases(s.place.local, through_calls=("Not::not",)) if False else {s.place.local}
                 for b in range(self.nblocks):
                     sw = self.switch_on(b)
                     if not sw:
@@ -642,7 +667,7 @@ class Fn:
         # PartialEq::eq / ne calls
         for c in self.calls:
             if c.is_("cmp::PartialEq::eq", "cmp::PartialEq::ne") and c.dest is not None:
-                oe = self.outcome_edges(c, passthrough=("ops::Not::not",))
+                oe = self.outcome_edges(c, passthrough=("Not::not",))
                 if "true" in oe:
                     d = {"op": "Eq" if c.name == "eq" else "Ne", "a": c.args[0], "b": c.args[1], "stmt": None, "call": c,
                          "bb": oe["true"][0], "t": oe["true"][1], "f": oe["false"][1]}
@@ -734,7 +759,7 @@ def variant_names(adt, extra=None):
 
 # Calls through which a Result/Option keeps its Ok/Err (Some/None) identity.
 PASS_THROUGH = (
-    "ops::Try::branch",
+    "Try::branch",
     "result::Result::map_err",
     "result::Result::inspect_err",
     "result::Result::inspect",
